@@ -41,7 +41,8 @@ def I9_goal(so):
 @unit(name='changeCluster', relpath=MOD, qual=[GATE], props=['C10'],
       doc='O10.1 (from the statement): a membership change is accepted by the leader only if it has applied its own no-op '
           'and no earlier membership entry is still unapplied in its journal',
-      assumptions=['I9 (leader bookkeeping invariant) - preserved by units checkCommandsToApply.membership and msg.response_vote'],
+      assumptions=['I9 (leader bookkeeping invariant) - preserved by units checkCommandsToApply.membership and msg.response_vote',
+                   'A-I2: the applied position lies inside the journal (see unit tryLogCompaction)'],
       canaries=[('drop-noop-gate', lambda mod: mutate_function(mod, GATE, _mut_drop_noop_gate), ['O10.1.accepted-only-after-own-noop-applied'])])
 def change_cluster(ctx):
     so = SO(ctx, UNIVERSE())
@@ -169,6 +170,7 @@ def _mut_ignore_reverse(fn):
       kind='body of the dequeue loop of _checkCommandsToApply on a leader with dynamic membership',
       doc='I9 is preserved when the leader appends a submission: a membership entry it appends is recorded as the pending change, '
           'so that the gate (unit changeCluster) refuses the next one until it is applied',
+      assumptions=['A-I2: the applied position lies inside the journal (see unit tryLogCompaction)', 'I7: a leader has recorded its no-op index (R4.noop-index-recorded)'],
       canaries=[('never-record', lambda mod: mutate_function(mod, 'SyncObj._checkCommandsToApply', _mut_never_record), ['I9.preserved-by-leader-append'])])
 def check_commands_membership(ctx, shape):
     from .so_submit import get_nowait_summary_factory, _loop_body, CHECK
